@@ -39,7 +39,7 @@ func VerifLemma_C04C_PackageImpliesFile() {
 	}
 	var prevFiles, curFiles []*vFile
 	for i := 0; i < np; i++ {
-		f := &vFile{path: vbPathPool[i], pkg: vbNondetLetter()}
+		f := &vFile{path: vbPathPool[i], pkg: vbNondetLetter(), isImport: verifNondetBool()}
 		req.prev = append(req.prev, f)
 		prevFiles = append(prevFiles, f)
 		if i == 0 || verifNondetChoice(2) == 1 {
@@ -53,7 +53,7 @@ func VerifLemma_C04C_PackageImpliesFile() {
 		if i == 0 && verifNondetChoice(2) == 1 {
 			k = 2
 		}
-		f := &vFile{path: vbPathPool[k], pkg: vbNondetLetter()}
+		f := &vFile{path: vbPathPool[k], pkg: vbNondetLetter(), isImport: verifNondetBool()}
 		req.cur = append(req.cur, f)
 		curFiles = append(curFiles, f)
 		if verifNondetChoice(2) == 1 {
